@@ -141,9 +141,9 @@ func replayDec(kind string, f map[string]string) (string, bool) {
 
 // ---- block grammar ----
 type gseq struct {
-	lits   []byte
-	off    int
-	mlen   int
+	lits []byte
+	off  int
+	mlen int
 }
 
 func encLen(out []byte, v int) []byte { // v >= 15 already subtracted: 255-continued
@@ -352,7 +352,7 @@ func compDec(o *out, seed uint64, tier string) {
 		}
 		dict := r.bytes(dictLen)
 		seqs, _, outLen := genBlock(r, dictLen, r.intn(3), true)
-		ll := 8 + r.intn(7) // 8..14 literals
+		ll := 8 + r.intn(7)  // 8..14 literals
 		ml := 4 + r.intn(15) // 4..18
 		di := outLen + ll
 		off := ml + r.intn(8)
